@@ -57,6 +57,9 @@ def _rules():
             lambda R, c, rid: shared.lookup_slices(R, c, rid),
             lambda R, c, rid: preds.rule(R, c, rid, ["item_contains", "slice_contains_id", "blockrange_contains"]),
         ],
+        "content": [
+            lambda R, c, rid: shared.content_tables(R, c, rid),
+        ],
         "flags": [
             lambda R, c, rid: preds.rule(R, c, rid, ["flags_check"]),
             lambda R, c, rid: preds.flag_table(R, c, rid),
@@ -66,21 +69,21 @@ def _rules():
 
 # property -> mechanisms it depends on *in addition to* the clauses its own module already runs
 DEPENDS = {
-    "C01": ["squash", "splice", "partial", "flags", "stash-deletes", "lookup"],
+    "C01": ["squash", "splice", "partial", "flags", "stash-deletes", "lookup", "content"],
     "C02": ["stash-deletes", "lookup"],
-    "C03": ["splice", "conflict", "lookup"],
-    "C04": ["splice", "dependency", "stash-deletes", "lookup"],
+    "C03": ["splice", "conflict", "lookup", "content"],
+    "C04": ["splice", "dependency", "stash-deletes", "lookup", "content"],
     "C05": ["conflict", "squash", "splice", "dependency"],
-    "C06": ["dependency", "delete-set", "slice", "partial", "lookup"],
+    "C06": ["dependency", "delete-set", "slice", "partial", "lookup", "content"],
     "C07": ["delete-set", "slice", "partial"],
     "C08": ["slice", "delete-set", "partial"],
-    "C09": ["slice", "partial"],
+    "C09": ["slice", "partial", "content"],
     "C12": ["splice", "squash", "lookup"],
-    "C13": ["splice", "delete-set", "lookup"],
+    "C13": ["splice", "delete-set", "lookup", "content"],
     "C14": ["splice", "liveness", "lookup"],
-    "C15": ["squash", "splice"],
+    "C15": ["squash", "splice", "content"],
     "C16": ["delete-set"],
-    "C17": ["flags"],
+    "C17": ["flags", "content"],
     "C18": ["dependency", "stash-deletes", "partial"],
     "C20": ["dependency", "splice", "squash", "lookup"],
 }
